@@ -1,0 +1,79 @@
+//go:build verif
+
+// Contracts for connection accounting and shutdown (server.go, absnfs.go, operations.go): C17. Comment-only file.
+package absnfs
+
+// lock invariant of connMutex: the counter is the number of registered connections
+//@ specdef connInv(s *Server) bool = s != nil && s.activeConns != nil && s.connCount == len(s.activeConns) && s.connCount >= 0 && forall(c, net.Conn, has(s.activeConns, c) ==> allocated(s.activeConns[c]), s.activeConns[c])
+
+//@ func Server.registerConnection
+//@ prop C17
+//@ requires connInv(s) && !has(s.activeConns, conn) && (s.handler != nil ==> curTuning(s.handler) != nil) && s.connCount < 9223372036854775807
+//@ modifies mapof(s.activeConns), s.connCount, clock, locks
+// admitted: counted exactly once, and the number served never exceeds MaxConnections (value at admission)
+//@ ensures [admitted] s.handler != nil && result ==> has(s.activeConns, conn) && s.connCount == old(s.connCount) + 1 && (curTuning(s.handler).MaxConnections > 0 ==> s.connCount <= curTuning(s.handler).MaxConnections)
+//@ ensures [refused-iff-full] s.handler != nil ==> (!result <==> curTuning(s.handler).MaxConnections > 0 && old(s.connCount) >= curTuning(s.handler).MaxConnections)
+//@ ensures [refused-unchanged] !result ==> mapsame(s.activeConns) && s.connCount == old(s.connCount)
+//@ ensures [others-kept] forall(c, net.Conn, c != conn ==> has(s.activeConns, c) == old(has(s.activeConns, c)) && s.activeConns[c] == old(s.activeConns[c]), s.activeConns[c])
+//@ ensures [inv] connInv(s)
+//@ ensures [unlocked] held(s.connMutex) == 0
+
+// body run under the connection's sync.Once: removes and uncounts the connection if it is still registered
+//@ func Server.unregisterConnection$1
+//@ prop C17
+//@ requires connInv(s) && held(s.connMutex) == 0 && (s.handler != nil ==> curTuning(s.handler) != nil)
+//@ modifies mapof(s.activeConns), s.connCount, locks
+//@ ensures [uncounted-once] s.connCount == old(s.connCount) - ite(old(has(s.activeConns, conn)), 1, 0) && !has(s.activeConns, conn)
+//@ ensures [others-kept] forall(c, net.Conn, c != conn ==> has(s.activeConns, c) == old(has(s.activeConns, c)) && s.activeConns[c] == old(s.activeConns[c]), s.activeConns[c])
+//@ ensures [inv] connInv(s) && s.activeConns == old(s.activeConns)
+//@ ensures [unlocked] held(s.connMutex) == 0
+
+//@ func Server.unregisterConnection
+//@ prop C17
+//@ requires connInv(s) && (s.handler != nil ==> curTuning(s.handler) != nil)
+//@ modifies mapof(s.activeConns), s.connCount, locks, once
+// uncounted at most once however often it is called; never counts below the number registered
+//@ ensures [inv] connInv(s) && s.activeConns == old(s.activeConns)
+//@ ensures [absent-noop] !old(has(s.activeConns, conn)) ==> mapsame(s.activeConns) && s.connCount == old(s.connCount)
+//@ ensures [count-never-increases] s.connCount <= old(s.connCount) && s.connCount >= old(s.connCount) - 1
+//@ ensures [others-kept] forall(c, net.Conn, c != conn ==> has(s.activeConns, c) == old(has(s.activeConns, c)), s.activeConns[c])
+//@ ensures [unlocked] held(s.connMutex) == 0
+
+//@ func Server.updateConnectionActivity
+//@ prop C17
+//@ requires connInv(s)
+//@ modifies connectionState.lastActivity, clock, locks
+//@ ensures [inv] connInv(s) && mapsame(s.activeConns) && s.connCount == old(s.connCount)
+//@ ensures [unlocked] held(s.connMutex) == 0
+
+//@ func Server.cleanupIdleConnections
+//@ prop C17
+//@ requires connInv(s) && (s.handler != nil ==> curTuning(s.handler) != nil)
+// the reaper closes (and unregisters) only connections that were registered and had been idle longer than
+// IdleTimeout at its snapshot: checked at the Close call itself
+//@ callassert net.Conn.Close : [closes-only-idle] oldhas(s.activeConns, conn) && real(idleTimeout) / 1000000000.0 < tsec(now) - tsec(oldidx(s.activeConns, conn).lastActivity)
+//@ ensures [inv] connInv(s) && s.connCount <= old(s.connCount)
+//@ loop 1 invariant s != nil && held(s.connMutex) == -1 && mapsame(s.activeConns) && s.connCount == old(s.connCount) && s.activeConns == old(s.activeConns) && tsec(now) <= clock && clock >= old(clock) && s.handler != nil && tuning == curTuning(s.handler) && idleTimeout == tuning.IdleTimeout
+//@ loop 1 invariant forall(x, *connectionState, x.lastActivity == old(x.lastActivity), x.lastActivity)
+//@ loop 1 invariant forall(a, off(idleConns), off(idleConns) + len(idleConns), has(s.activeConns, absidx(idleConns, a)) && real(idleTimeout) / 1000000000.0 < tsec(now) - tsec(s.activeConns[absidx(idleConns, a)].lastActivity), absidx(idleConns, a))
+//@ loop 2 invariant connInv(s) && held(s.connMutex) == 0 && s.activeConns == old(s.activeConns) && s.connCount <= old(s.connCount) && 0 <= rangeindex + 1 && rangeindex + 1 <= len(idleConns) && s.handler != nil && curTuning(s.handler) != nil
+//@ loop 2 invariant forall(a, off(idleConns), off(idleConns) + len(idleConns), oldhas(s.activeConns, absidx(idleConns, a)) && real(idleTimeout) / 1000000000.0 < tsec(now) - tsec(oldidx(s.activeConns, absidx(idleConns, a)).lastActivity), absidx(idleConns, a))
+//@ loop 2 invariant forall(x, *connectionState, !fresh(x) ==> x.lastActivity == old(x.lastActivity), x.lastActivity)
+
+//@ func AbsfsNFS.Unexport
+//@ prop C17
+//@ requires s != nil && s.fileMap != nil && fmInv(s.fileMap) && issuedInv(s.fileMap) && s.attrCache != nil && s.exportServer == nil
+// every file handle is released and the caches are empty; the postcondition is also the state a second call
+// starts from (idempotence: nothing fails when repeated)
+//@ ensures [handles-released] len(s.fileMap.handles) == 0
+//@ ensures [attr-cache-empty] len(s.attrCache.cache) == 0
+//@ ensures [dir-cache-empty] s.dirCache != nil ==> len(s.dirCache.entries) == 0
+//@ ensures [repeatable] fmShape(s.fileMap) && fmPaths(s.fileMap) && fmIds(s.fileMap) && fmRev(s.fileMap) && issuedInv(s.fileMap) && s.exportServer == nil
+
+//@ func AbsfsNFS.Close
+//@ prop C17
+//@ requires n != nil && (n.fileMap != nil ==> fmInv(n.fileMap) && issuedInv(n.fileMap)) && n.exportServer == nil && n.workerPool == nil
+//@ ensures [handles-released] n.fileMap != nil ==> len(n.fileMap.handles) == 0
+//@ ensures [attr-cache-empty] n.attrCache != nil ==> len(n.attrCache.cache) == 0
+//@ ensures [dir-cache-empty] n.dirCache != nil ==> len(n.dirCache.entries) == 0
+//@ ensures [repeatable] n.exportServer == nil && (n.fileMap != nil ==> fmShape(n.fileMap) && fmPaths(n.fileMap) && fmIds(n.fileMap) && fmRev(n.fileMap) && issuedInv(n.fileMap))
